@@ -193,9 +193,17 @@ def alias_table_rule(repo: Repo, rep: Report, rid: str) -> None:
 
     guards = {x.id for x in g.nodes if x.kind == "if" and always_raises(x.ast.body) and "ValueError" in raised_names(x.ast.body)
               and Formula(x.ast.test, interp).always({"REPLACE": False, "EXISTS": True, "DIFFERENT": True}, True)}
-    rep.check(len(stores) == 1 and bool(guards) and g.must_pass(g.entry.id, stores[0].id, guards), rid, f"{fi.key}:duplicate-guard",
-              "guard (not replace and name exists and resolves differently) -> ValueError dominates the store",
-              "add_type can re-bind an existing name to a different type without replace=True", fi.loc())
+    from ..folds import fold_add_type
+
+    atf = fold_add_type(repo)
+    if atf is not None:
+        bad = atf["bad"]
+        rep.check(not bad, rid, f"{fi.key}:duplicate-guard", f"folded over {atf['cases']} (known name?, same target?, replace?) cases: a name is only re-bound to another type with replace=True",
+                  f"add_type with '{bad[0][0] if bad else ''}': {bad[0][1] if bad else ''}, expected {bad[0][2] if bad else ''}", fi.loc())
+    else:
+        rep.check(len(stores) == 1 and bool(guards) and g.must_pass(g.entry.id, stores[0].id, guards), rid, f"{fi.key}:duplicate-guard",
+                  "guard (not replace and name exists and resolves differently) -> ValueError dominates the store",
+                  "add_type can re-bind an existing name to a different type without replace=True", fi.loc())
     rep.check(len(stores) == 1 and norm(stores[0].ast.value) == typ and norm(stores[0].ast.targets[0].slice) == name, rid, f"{fi.key}:store",
               "typedefs[name] = type_", "add_type stores something else than the given type under the given name", fi.loc())
     # the parsers register through add_type
